@@ -159,10 +159,12 @@ structure Sw where
   /-- K1 (fixed, /repo 312c562): numbers of the *same* convertible unit are also compared in the
       canonical unit (`sass_number.rs:255`); `false` = at the unit's own scale. -/
   canonSame : Bool
-  /-- K2 (fixed, /repo d046d73): an argument list is compared as the unbracketed comma list of its
-      positional elements (`value/mod.rs:105` requires `Brackets::None`, `arglist.rs:16` compares
-      `elems` only); `false` = brackets of the list ignored, keywords and hidden separator compared
-      between two argument lists. -/
+  /-- K2 (fixed, /repo d046d73 + e36bfd5): an argument list is compared as the unbracketed list of
+      its positional elements with its own separator (comma for arguments passed one by one, the
+      separator of the list spread into it otherwise): `value/mod.rs:105` requires `Brackets::None`
+      and equal separators, `arglist.rs:16` compares separator and `elems`, keywords never count;
+      `false` = brackets of the list ignored, the list had to be a comma list whatever the argument
+      list's hidden separator, keywords compared between two argument lists. -/
   argAsList : Bool
   /-- K4 (fixed, /repo 61f3ffb): `SassMap::remove` drops the keys that are `==` to the probe
       (`map.rs:63` `retain(|k| k.node != *key)`); `false` = it kept the keys for which the since
@@ -214,7 +216,8 @@ mutual
     | color (r g b a : Rat)
     | list (es : VList) (sep : Sep) (bracketed : Bool)
     | map (ps : VPairs)
-    /-- positional elements, keywords (keys are unquoted strings, in `BTreeMap` order), hidden separator -/
+    /-- positional elements, keywords (keys are unquoted strings, in source order since /repo adef70c),
+        separator (comma, or that of the list spread into the call; /repo e36bfd5) -/
     | arglist (es : VList) (kw : VPairs) (sep : Sep)
   inductive VList where
     | nil
@@ -271,14 +274,14 @@ mutual
     | .str s1 _, .str s2 _ => decide (s1 = s2)
     | .color r1 g1 b1 a1, .color r2 g2 b2 a2 => colorEq r1 g1 b1 a1 r2 g2 b2 a2
     | .list l1 s1 b1, .list l2 s2 b2 => decide (s1 = s2) && decide (b1 = b2) && veqL sw l1 l2
-    | .list l1 s1 b1, .arglist l2 _ _ =>
-      if sw.argAsList then decide (s1 = .comma) && decide (b1 = false) && veqL sw l1 l2
+    | .list l1 s1 b1, .arglist l2 _ s2 =>
+      if sw.argAsList then decide (s1 = s2) && decide (b1 = false) && veqL sw l1 l2
       else sw.argSym && decide (s1 = .comma) && veqL sw l1 l2
-    | .arglist l1 _ _, .list l2 s2 b2 =>
-      if sw.argAsList then decide (s2 = .comma) && decide (b2 = false) && veqL sw l1 l2
+    | .arglist l1 _ s1, .list l2 s2 b2 =>
+      if sw.argAsList then decide (s1 = s2) && decide (false = b2) && veqL sw l1 l2
       else decide (s2 = .comma) && veqL sw l1 l2
     | .arglist l1 k1 s1, .arglist l2 k2 s2 =>
-      if sw.argAsList then veqL sw l1 l2
+      if sw.argAsList then decide (s1 = s2) && veqL sw l1 l2
       else veqL sw l1 l2 && veqKw sw k1 k2 && decide (s1 = s2)
     | .map p1, .map p2 => decide (p1.length = p2.length) && subP sw p1 p2
     | _, _ => false
